@@ -950,6 +950,10 @@ func checkC02(e *Engine, r *Report) {
 		fMin := e.Field(pkgCfgBL, "BalloonDef", "MinCpus")
 		fMaxB := e.Field(pkgCfgBL, "BalloonDef", "MaxBalloons")
 		fMinB := e.Field(pkgCfgBL, "BalloonDef", "MinBalloons")
+		if vc := r.Anchor(pkgBL, "balloons.validateConfig"); vc != nil {
+			checkLimitRangeValidated(e, r, vc, "Cpus", fMin, fMax)
+			checkLimitRangeValidated(e, r, vc, "Balloons", fMinB, fMaxB)
+		}
 		// On every path: with the limit set and the count beyond it, no path reaches a point where the count takes effect
 		// (ResizeCpus / AllocateCpus / ReleaseCpus) without passing the assignment of the limit. Other conditions on
 		// the way (`count > 0 && ...`) are free, so a clamp that some further test can switch off is reported.
